@@ -38,6 +38,12 @@ func (db *TrieDB) Close() error {
 	return nil
 }
 
+// wildcardOnSystemTopic reports whether the topic filter starts with a wildcard while the topic name starts
+// with '$'; such a filter must not match [MQTT-4.7.2-1]. The shared trie holds both kinds of filters.
+func wildcardOnSystemTopic(topicName string, sub *gmqtt.Subscription) bool {
+	return isSystemTopic(topicName) && len(sub.TopicFilter) != 0 && (sub.TopicFilter[0] == '+' || sub.TopicFilter[0] == '#')
+}
+
 func iterateShared(fn subscription.IterateFn, options subscription.IterationOptions, index map[string]map[string]*topicNode, trie *topicTrie) bool {
 	// 查询指定topicFilter
 	if options.TopicName != "" && options.MatchType == subscription.MatchName { //寻找指定topicName
@@ -81,6 +87,9 @@ func iterateShared(fn subscription.IterateFn, options subscription.IterationOpti
 		}
 		if options.ClientID != "" {
 			for _, v := range node[options.ClientID] {
+				if wildcardOnSystemTopic(options.TopicName, v) {
+					continue
+				}
 				if !fn(options.ClientID, v) {
 					return false
 				}
@@ -88,6 +97,9 @@ func iterateShared(fn subscription.IterateFn, options subscription.IterationOpti
 		} else {
 			for clientID, subs := range node {
 				for _, v := range subs {
+					if wildcardOnSystemTopic(options.TopicName, v) {
+						continue
+					}
 					if !fn(clientID, v) {
 						return false
 					}
